@@ -102,7 +102,7 @@ def dist2triWith (foot : V3 α → V3 α → V3 α → V3 α → V3 α) (p0 p1 p
 /-- the foot computation `ref_search_distance3` uses in /repo today.  THE ONE LINE TO FLIP when the repair
     lands: replace `tri3Foot` by `tri3FootFixed` here (theorems and driver follow; `tri3FootRepo_along` in
     `Lemmas/SearchTri.lean` accepts either). -/
-@[inline] def tri3FootRepo (p0 p1 p2 x : V3 α) : V3 α := tri3Foot p0 p1 p2 x
+@[inline] def tri3FootRepo (p0 p1 p2 x : V3 α) : V3 α := tri3FootFixed p0 p1 p2 x
 
 /-- `ref_search_distance3`: point–triangle distance, as in /repo today -/
 def dist2tri (p0 p1 p2 x : V3 α) : α := dist2triWith tri3FootRepo p0 p1 p2 x
